@@ -78,7 +78,14 @@ impl<W: AsyncWrite> AsyncWrite for BufWriter<W> {
             })
             .expect("Closure always return Ok");
 
-        (_, buf) = buf_try!(self.flush_if_needed().await, buf);
+        // The bytes above are already accepted. Reporting a failed flush as a failure
+        // of this write would make the caller retry and duplicate them; the error
+        // surfaces on the next write or flush, which still holds the unsent data.
+        if let Err(e) = self.flush_if_needed().await
+            && written == 0
+        {
+            return BufResult(Err(e), buf);
+        }
 
         BufResult(Ok(written), buf)
     }
@@ -104,7 +111,14 @@ impl<W: AsyncWrite> AsyncWrite for BufWriter<W> {
             })
             .expect("Closure always return Ok");
 
-        (_, buf) = buf_try!(self.flush_if_needed().await, buf);
+        // The bytes above are already accepted. Reporting a failed flush as a failure
+        // of this write would make the caller retry and duplicate them; the error
+        // surfaces on the next write or flush, which still holds the unsent data.
+        if let Err(e) = self.flush_if_needed().await
+            && written == 0
+        {
+            return BufResult(Err(e), buf);
+        }
 
         BufResult(Ok(written), buf)
     }
